@@ -336,9 +336,17 @@ PROPS = {
                       "what": "about 78000 response streams of at most 6 records over {SOA 1, SOA 2, SOA 3, A .1, A .2}, as AXFR and IXFR, in one "
                               "and in two messages, through the real XfrResponseInterpreter, compared with the stream automaton of the unit's "
                               "contract -- run only to find a concrete stream for a failed Verus obligation"},
+        "extra_searches": [
+            {"bin": "c09_search_zone_histories", "crate": "replay_net", "release": True,
+             "what": "the receiving side's store: all 179 278 writer/reader histories of at most 7 steps on the real in-memory zone (see C09); for C10 "
+                     "the clauses 'the difference set a zone reports when a change is committed, applied to the old content, yields the new "
+                     "content' (diff of every commit after one open(true), incl. RRsets written twice in one version) and 'never leave a "
+                     "partially applied version visible' (abandoned writes, also after commit + re-open as the updater does per IXFR batch)"},
+        ],
         "kani": [],
         "replays": [
             {"bin": "d3_xfr_wrong_qtype", "crate": "replay_net", "finding": "D3"},
+            {"bin": "d48_zone_diff_stale_entries", "crate": "replay_net", "finding": "D48"},
         ],
         "explanation": "contracts on the transfer-stream state machine (real text of net/xfr/protocol/interpreter.rs, message and record "
                        "types reduced to prelude models): XfrResponseInterpreter::check_response accepts exactly the RFC 5936 section "
@@ -590,6 +598,15 @@ PROPS = {
         "level": "proof",
         "level_prefix": "Partial proof -- contracts discharged without bound on the mechanisms named below, not the whole statement (bounded stand-ins and what is left out are listed): ",
         "units": ["versioned"],
+        "vx_search": {"bin": "c09_search_zone_histories", "crate": "replay_net", "release": True,
+                      "what": "all 179 278 histories of at most 7 enabled steps (take and hold a reader; obtain the writer; ask for a second writer "
+                              "while the first is open -- its future must stay pending -- and let it in afterwards; open without / with diff tracking; "
+                              "update_rrset / remove_rrset on three owner names, one new, one holding two records, at most three edits; commit; drop "
+                              "the writer) on the real in-memory zone, compared after every step with a map model: each held reader walks and "
+                              "queries exactly the content committed when it was taken, a new reader exactly the committed content (nothing staged, "
+                              "nothing abandoned, also after later commits), a commit publishes exactly the staged content, and the diff it hands "
+                              "out leads from the old to the new content. Single-threaded with hand-polled futures: deterministic, no real-thread "
+                              "schedules"},
         "kani": [
             {"group": "repo_zonetree", "name": "c09_versioned_get_matches_spec_bounded", "kind": "bounded", "tier": "quick",
              "bound": "tables of at most 4 (version, Option<u8>) entries, arbitrary versions and values, every reader version",
